@@ -26,6 +26,7 @@ def parse_case(case):
     payload = case.partition(" ")[2]
     pieces = payload.split(";")
     mode, k, src = pieces[0].split(":")[:3]
+    mode = mode.lower()      # `A` / `S`: as `a` / `s`, the source yields two bundles per locale (same observations)
     needs, end = src.split("/")
     needs = [] if needs == "-" else [int(x) for x in needs.split(",")]
     if mode == "s":
@@ -219,6 +220,17 @@ class C17(Base):
         return "cache " + ";".join([header("s", k, [0] * n, 0)] + ops)
 
     def generate(self, rng, tier):
+        # in one case out of seven the source yields TWO bundles per locale (bundles 2i and 2i+1 carry the same locale,
+        # mode letter in upper case): a consumer must not take "same locale as the previous bundle" for "same bundle"
+        import random
+        r2 = random.Random(rng.random())
+        for case in self.generate_base(rng, tier):
+            if r2.random() < 0.14:
+                head, _, rest = case.partition(" ")
+                case = head + " " + rest[:1].upper() + rest[1:]
+            yield case
+
+    def generate_base(self, rng, tier):
         quick = tier == "quick"
         for _ in range(12000 if quick else 200000):
             yield self.gen_async(rng, 30 if rng.random() < 0.9 else 90)
@@ -417,7 +429,7 @@ class C17(Base):
     # ------------------------------------------------------------------------------------------
 
     def nontrivial(self, case, impl_obs):
-        mode = case.partition(" ")[2][:1]
+        mode = case.partition(" ")[2][:1].lower()
         obs = impl_obs.split(";") if impl_obs else []
         if mode == "a":
             return any(o.startswith("P") for o in obs) and any(not o.endswith("!-") and "!" in o for o in obs)
